@@ -201,4 +201,182 @@ theorem non_empty_proper_subsets_spec {α : Type} (l : List α) (hl : l ≠ []) 
         · exact absurd (hs.eq_of_length h) hnl
         · omega
 
+/-! ## helpers.all_combinations / itertools.product -/
+
+/-- `itertools.product(*gs)`: exactly the tuples taking one element of every list … -/
+theorem product_spec {β : Type} (gs : List (List β)) (t : List β) : t ∈ product gs ↔ pickOne t gs :=
+  mem_product gs t
+
+/-- … each once, `∏ len(g)` of them. -/
+theorem product_nodup_count {β : Type} (gs : List (List β)) :
+    ((∀ g, g ∈ gs → g.Nodup) → (product gs).Nodup) ∧
+      (product gs).length = (gs.map List.length).foldr (· * ·) 1 :=
+  ⟨product_nodup gs, product_length gs⟩
+
+/-! ## MFL statement classes (Absorption, Elimination, LagTime): `+`, `-`, `==` vs sets -/
+
+/-- `a + b` on explicit mode tuples is the set union (for each of the three classes). -/
+theorem stmt_add_is_union (k : ModeKind) (a b : List String) :
+    ∃ r, modesAdd k (.names a) (.names b) = .ok (.names r) ∧ ∀ x, x ∈ r ↔ x ∈ a ∨ x ∈ b :=
+  modesAdd_names k a b
+
+/-- A wildcard operand gives the wildcard, whose expansion contains every valid mode. -/
+theorem stmt_add_wildcard (k : ModeKind) (a b : Modes) (h : a.isWild = true ∨ b.isWild = true) :
+    modesAdd k a b = .ok .wild := modesAdd_wild k a b h
+
+/-- `a - b` on explicit mode tuples is the set difference; when that is empty the class default
+    is re-inserted ("difference modulo defaults"). -/
+theorem stmt_sub_is_difference_modulo_default (k : ModeKind) (a b : List String) :
+    ∃ r, modesSub k (.names a) (.names b) = .ok (.names r) ∧
+      ((∃ x, x ∈ a ∧ x ∉ b) → ∀ x, x ∈ r ↔ x ∈ a ∧ x ∉ b) ∧
+      ((¬ ∃ x, x ∈ a ∧ x ∉ b) → r = [k.subDefault]) :=
+  modesSub_names k a b
+
+/-- `a == b` on explicit mode tuples is set equality. -/
+theorem stmt_eq_is_set_equality (a b : List String) :
+    ∃ r, modesEq (.names a) (.names b) = .ok r ∧ (r = true ↔ ∀ x, x ∈ a ↔ x ∈ b) :=
+  modesEq_names a b
+
+/-- The full statement "`-` and `==` agree with set operations on the expanded modes" is false
+    of the code when an operand is the wildcard: `==` raises, and `x - *` yields a statement whose
+    `modes` is a bare `Name` (for Elimination even `INST`, which is no elimination mode) on which
+    `len` raises. -/
+theorem stmt_wildcard_witness :
+    modesEq .wild (.names ["FO"]) = .error .typeError ∧
+    modesSub eliminationKind (.names ["FO"]) .wild = .ok (.bare "INST") ∧
+    Modes.len eliminationKind (.bare "INST") = .error .typeError ∧
+    ("INST" ∉ Gen.eliminationWildcard) := by
+  decide +kernel
+
+/-! ## ModelFeatures: deviations of the code from set semantics (concrete witnesses)
+
+`atoms` is the explicit expansion of a search space.  Each statement below is checked by
+evaluating the model, which the correspondence run ties to the code on the same inputs. -/
+
+/-- `contain_subset` is not the subset test on atoms: for a tool other than modelsearch it
+    returns `None` for a true subset (F14) … -/
+theorem contain_subset_none_witness :
+    let a := mfOf [.absorption (.names ["FO", "ZO"])]
+    let b := mfOf [.absorption (.names ["FO"])]
+    (∀ x, x ∈ b.atoms → x ∈ a.atoms) ∧
+      MF.containSubset a b true = .ok (some true) ∧ MF.containSubset a b false = .ok none := by
+  decide +kernel
+
+/-- … and it compares transit counts and depots separately. -/
+theorem contain_subset_transits_witness :
+    let a := mfOf [.transits ⟨[1], .names ["DEPOT"]⟩, .transits ⟨[2], .names ["NODEPOT"]⟩]
+    let b := mfOf [.transits ⟨[2], .names ["DEPOT"]⟩]
+    Atom.trans 2 "DEPOT" ∈ b.atoms ∧ Atom.trans 2 "DEPOT" ∉ a.atoms ∧
+      MF.containSubset a b true = .ok (some true) := by
+  decide +kernel
+
+/-- `==` is not equality of the expanded spaces: it depends on how PERIPHERALS is split into
+    statements. -/
+theorem eq_peripherals_split_witness :
+    let a := mfOf [.peripherals ⟨[0, 1], .names ["DRUG"]⟩]
+    let b := mfOf [.peripherals ⟨[0], .names ["DRUG"]⟩, .peripherals ⟨[1], .names ["DRUG"]⟩]
+    sameAtoms a.atoms b.atoms = true ∧ MF.eq a b = .ok false := by
+  decide +kernel
+
+/-- `==`, `-` raise on a wildcard; `+` raises on `PERIPHERALS(n,*)`. -/
+theorem wildcard_raises_witness :
+    let a := mfOf [.absorption .wild]
+    let b := mfOf [.absorption (.names ["FO"])]
+    let p := mfOf [.peripherals ⟨[1], .wild⟩]
+    MF.eq a b = .error .typeError ∧ (MF.sub a b).toOption = none ∧ (MF.add p b).toOption = none := by
+  decide +kernel
+
+/-- `least_number_of_transformations(tool='modelsearch')` returns a metabolite peripheral. -/
+theorem lnt_metabolite_witness :
+    let a := mfOf [.absorption (.names ["FO"])]
+    let b := mfOf [.absorption (.names ["ZO"]), .peripherals ⟨[1], .names ["MET"]⟩]
+    MF.lnt a b = .ok [["ABSORPTION", "ZO"], ["PERIPHERALS", "1", "METABOLITE"]] := by
+  decide +kernel
+
+/-- where `+`, `-` do agree with set operations: a sample with every category, ranges and both
+    depots (non-vacuity of the correspondence monitors `add-not-union` / `sub-not-difference`) -/
+example :
+    let a := mfOf [.absorption (.names ["FO", "ZO"]), .transits ⟨[0, 1, 3], .wild⟩, .peripherals ⟨[0, 1], .names ["DRUG"]⟩]
+    let b := mfOf [.absorption (.names ["ZO", "INST"]), .transits ⟨[1], .names ["NODEPOT"]⟩, .transits ⟨[4], .names ["DEPOT"]⟩]
+    (match MF.add a b with
+      | .ok c => sameAtoms c.atoms (a.atoms ++ b.atoms)
+      | .error _ => false) = true ∧
+    (match MF.sub a b with
+      | .ok c => sameAtoms c.atoms ((a.atoms.filter (fun x => !b.atoms.contains x)) ++ [Atom.elim "FO", Atom.lag "OFF"])
+      | .error _ => false) = true := by
+  decide +kernel
+
+/-! ## modelsearch: `exhaustive_stepwise` -/
+
+/-- `exhaustive_stepwise` creates exactly the non-empty root paths every step of which is accepted
+    by `_is_allowed` given the features applied before it … -/
+theorem stepwise_paths_exact (funcs p : List Key) :
+    p ∈ exhaustiveStepwise funcs ↔ allowedPath funcs p = true ∧ p ≠ [] :=
+  mem_exhaustiveStepwise funcs p
+
+/-- … each path once (the key list of a dict has no duplicates). -/
+theorem stepwise_each_path_once (funcs : List Key) (hf : funcs.Nodup) : (exhaustiveStepwise funcs).Nodup :=
+  stepwiseAux_nodup funcs hf (funcs.length + 1) 0
+
+/-- Termination of the `while True` loop: a path never repeats a key, so after
+    `len(mfl_funcs) + 1` sweeps nothing is created any more; more sweeps change nothing. -/
+theorem stepwise_fuel_irrelevant (funcs : List Key) (fuel : Nat) (hf : funcs.length + 1 ≤ fuel) (p : List Key) :
+    p ∈ stepwiseAux funcs fuel [[]] ↔ p ∈ exhaustiveStepwise funcs :=
+  mem_stepwiseAux_fuel funcs fuel hf p
+
+/-- a path never repeats a feature and uses only features of the table -/
+theorem stepwise_path_nodup (funcs p : List Key) (h : p ∈ exhaustiveStepwise funcs) : p.Nodup ∧ p ⊆ funcs :=
+  allowedPath_nodup_subset funcs p ((stepwise_paths_exact funcs p).mp h).1
+
+/-- One feature per category on a path: two features of one kind on a path are both
+    PERIPHERALS. -/
+theorem stepwise_one_feature_per_category (funcs p : List Key) (h : p ∈ exhaustiveStepwise funcs) :
+    p.Pairwise (fun g f => g.kind = f.kind → g.isPeripheral = true ∧ f.isPeripheral = true) := by
+  refine (allowed_one_per_category' funcs p ((stepwise_paths_exact funcs p).mp h).1).imp ?_
+  intro g f hgf hk
+  cases hp : Key.isPeripheral f with
+  | false => exact absurd hk (hgf hp)
+  | true =>
+    refine ⟨?_, rfl⟩
+    rw [isPeripheral_iff] at hp ⊢
+    rw [hk, hp]
+
+/-- The documented incompatible combinations (and the in-code ones) never co-occur on a path. -/
+theorem stepwise_excluded_pairs_never_cooccur (funcs p : List Key) (h : p ∈ exhaustiveStepwise funcs) :
+    p.Pairwise (fun g f => ∀ c, c ∈ Gen.notSupportedCombo → comboHit c f g = false ∧ comboHit c g f = false) := by
+  refine (allowed_excluded_pairs' funcs p ((stepwise_paths_exact funcs p).mp h).1).imp ?_
+  intro g f hgf c hc
+  exact ⟨hgf c hc, by rw [comboHit_symm]; exact hgf c hc⟩
+
+/-- `TRANSITS(0, NODEPOT)` is never applied. -/
+theorem stepwise_never_allowed_absent (funcs p : List Key) (h : p ∈ exhaustiveStepwise funcs) :
+    ∀ f, f ∈ p → f ∉ Gen.neverAllowed :=
+  allowed_never' funcs p ((stepwise_paths_exact funcs p).mp h).1
+
+/-- The first peripheral feature on a path is the smallest count of the table. -/
+theorem stepwise_first_peripheral_is_min (funcs q : List Key) (f : Key)
+    (h : (q ++ [f]) ∈ exhaustiveStepwise funcs) (hf : f.isPeripheral = true)
+    (hq : ∀ g, g ∈ q → g.isPeripheral = false) : f.arg0 = listMin (periCounts funcs) :=
+  first_peripheral_is_min' funcs q f ((stepwise_paths_exact funcs _).mp h).1 hf hq
+
+/-- "Peripheral compartments are added in increasing order, one at a time" is false of the code
+    as soon as the table has three counts: `_is_allowed_peripheral` only looks at the table entry
+    before `n`, not at what was applied. -/
+theorem stepwise_peripherals_increasing_witness :
+    let funcs : List Key := [["PERIPHERALS", "1"], ["PERIPHERALS", "2"], ["PERIPHERALS", "3"]]
+    [["PERIPHERALS", "1"], ["PERIPHERALS", "3"]] ∈ exhaustiveStepwise funcs ∧
+    [["PERIPHERALS", "1"], ["PERIPHERALS", "3"], ["PERIPHERALS", "2"]] ∈ exhaustiveStepwise funcs := by
+  decide +kernel
+
+/-- and a documented path is missing when the counts are not listed in ascending order -/
+theorem stepwise_peripherals_listing_order_witness :
+    let funcs : List Key := [["PERIPHERALS", "4"], ["PERIPHERALS", "0"]]
+    [["PERIPHERALS", "0"], ["PERIPHERALS", "4"]] ∉ exhaustiveStepwise funcs ∧
+    exhaustiveStepwise funcs = [[["PERIPHERALS", "0"]]] := by
+  decide +kernel
+
+/-- non-vacuity: the documented example of docs/modelsearch.rst has 15 candidates -/
+example : (exhaustiveStepwise [["ABSORPTION", "ZO"], ["ELIMINATION", "MM"], ["PERIPHERALS", "1"]]).length = 15 := by
+  decide +kernel
+
 end Pharmpy.C18
